@@ -39,6 +39,7 @@ STANDIN_NOTES = [
     "stand-in: ValueInt(v) -> v for symbolic v (ValueInt only adds part-select indexing to int)",
     "stand-in: ValueBool.__bool__/ValueScalar.__bool__ -> bool(self.v) / bool(self.v != 0) (same result on concrete "
     "values; lets a symbolic condition fork instead of raising TypeError)",
+    "stub (coverage harnesses): inspect.stack() -> cheap frame list (pyvsc only records declaration file/line from it)",
 ]
 
 
@@ -145,8 +146,33 @@ def coverage_modules():
     return [importlib.import_module(n) for n in names]
 
 
+class _FI(object):
+    __slots__ = ("filename", "lineno", "function", "frame")
+
+    def __init__(self, f):
+        self.frame = f
+        self.filename = f.f_code.co_filename
+        self.lineno = f.f_lineno
+        self.function = f.f_code.co_name
+
+
+def fast_stack(context=1):
+    """cheap replacement for inspect.stack() (pyvsc only reads .filename/.lineno of the first frames to record
+    declaration locations; the real one reads source files on every call)"""
+    import sys
+    out = []
+    f = sys._getframe(1)
+    while f is not None and len(out) < 6:
+        out.append(_FI(f))
+        f = f.f_back
+    return out
+
+
 def coverage_standins():
-    return pyvsc_standins(coverage_modules())
+    import inspect
+    st = pyvsc_standins(coverage_modules())
+    st.extra.append((inspect, "stack", fast_stack))
+    return st
 
 
 def reset_coverage_registry():
